@@ -51,6 +51,9 @@ def main():
     w = max(len(r[0]) for r in results) if results else 4
     for s, pid, verdict, detail in results:
         print("%-*s  %s  %-8s %s" % (w, s, pid, verdict, detail))
+    # the runs above rewrote evidence/<id>.json from mutated trees: put the committed (unchanged-tree) evidence back
+    sh("git -C %s checkout -- evidence" % VERIF)
+    sh("rm -rf %s" % os.path.join(VERIF, "evidence", "replay"))
     missed = [r for r in results if r[2] == "MISSED"]
     print("%d seeds, %d caught by their own property's check, %d missed" % (len(results), sum(1 for r in results if r[2] == "CAUGHT"), len(missed)))
     return 0
